@@ -30,6 +30,14 @@ Theorem C15_future_test : forall period operand now ts c, 0 < period -> now < ts
 Proof. exact age_test_future. Qed.
 Print Assumptions C15_future_test.
 
+(* for every clock, timestamp and N exactly one of -mtime N, -mtime +N, -mtime -N holds (C14's trichotomy on the signed age) *)
+Theorem C15_age_trichotomy : forall n v,
+  (imatches (EqualTo n) v = true /\ imatches (MoreThan n) v = false /\ imatches (LessThan n) v = false) \/
+  (imatches (EqualTo n) v = false /\ imatches (MoreThan n) v = true /\ imatches (LessThan n) v = false) \/
+  (imatches (EqualTo n) v = false /\ imatches (MoreThan n) v = false /\ imatches (LessThan n) v = true).
+Proof. exact imatches_trichotomy. Qed.
+Print Assumptions C15_age_trichotomy.
+
 (* -newer / -newerXY: strictly later, at full resolution; which timestamps are compared (entry's X,
    reference file's Y) is fixed by the correspondence check *)
 Theorem C15_newer_strict : forall e r, newer e r = true <-> r < e.
